@@ -7,6 +7,7 @@ package c10
 import (
 	"errors"
 	"fmt"
+	"runtime"
 	"sort"
 	"strings"
 	"sync"
@@ -27,6 +28,7 @@ import (
 //	sub       Buf: -1 Sub() (DefaultBuffer) else SubBuf(Buf); Recv: drain | gated | never
 //	unsub     Target: >=0 subscriber index (mod table size, may already be removed), -1 nil channel, -2 foreign channel
 //	unsuball
+//	clone     keep ps.WithOnly(Target) as a persistent publisher; later pub/sub steps with Via=k use it
 type Step struct {
 	K       string `json:"k"`
 	Variant string `json:"variant,omitempty"`
@@ -35,6 +37,9 @@ type Step struct {
 	Buf     int    `json:"buf,omitempty"`
 	Recv    string `json:"recv,omitempty"`
 	Target  int    `json:"target,omitempty"`
+	// Via (pub, sub): 0 = the PubSub itself; k > 0 = the persistent WithOnly clone number (k-1) mod #clones
+	// created by an earlier "clone" step (K="clone", Target as for unsub: subscriber index or -2 foreign)
+	Via int `json:"via,omitempty"`
 }
 
 type Case struct {
@@ -42,11 +47,23 @@ type Case struct {
 	Timeout       string `json:"timeout"` // "0" | "1ms" | "1h"
 	OnTimeout     bool   `json:"on_timeout"`
 	Steps         []Step `json:"steps"`
+	// Subber: number of Sub() calls a background goroutine makes while the script runs (its subscriptions drain
+	// from the start; what they must / may / must not receive follows from invocation-response stamps)
+	Subber int `json:"subber,omitempty"`
 	// Racy: do NOT settle in-flight asynchronous sends before Unsub/UnsubAll (known-finding class; child process only)
 	Racy bool `json:"racy,omitempty"`
 }
 
+// clone is a persistent WithOnly publisher.
+type clone struct {
+	ps     *chans.PubSub[int]
+	member *subscriber   // the subscription it was made for (nil: foreign channel or not subscribed at the time)
+	own    []*subscriber // subscriptions made on the clone itself
+}
+
 type subscriber struct {
+	optional     map[int]bool // events it may or may not receive (a publish overlapped its concurrent Sub)
+	owner        *clone       // nil: subscribed on the PubSub itself
 	idx          int
 	ch           <-chan int
 	cap          int
@@ -136,6 +153,7 @@ type world struct {
 	c        Case
 	ps       *chans.PubSub[int]
 	subs     []*subscriber
+	clones   []*clone
 	nextEv   int
 	timeouts sync.Map // event -> *atomic.Int32
 	syncSeq  []int    // sync-published events in publication order
@@ -143,7 +161,19 @@ type world struct {
 	excluded int
 }
 
+// liveSubs: subscriptions currently held by the PubSub itself.
 func (w *world) liveSubs() []*subscriber {
+	var l []*subscriber
+	for _, s := range w.subs {
+		if s.live && s.owner == nil {
+			l = append(l, s)
+		}
+	}
+	return l
+}
+
+// allLive: every subscription that is still open (PubSub's and clones' own).
+func (w *world) allLive() []*subscriber {
 	var l []*subscriber
 	for _, s := range w.subs {
 		if s.live {
@@ -151,6 +181,13 @@ func (w *world) liveSubs() []*subscriber {
 		}
 	}
 	return l
+}
+
+func (w *world) via(k int) *clone {
+	if k <= 0 || len(w.clones) == 0 {
+		return nil
+	}
+	return w.clones[(k-1)%len(w.clones)]
 }
 
 func (w *world) timeoutCount(ev int) int {
@@ -191,7 +228,7 @@ func (w *world) settle(subs []*subscriber, why string) (viol, inconcl string) {
 				missing = fmt.Sprintf("subscriber %d has %d of %d expected events (received %v, %d in buffer)", s.idx, n+inBuf, len(s.expect), s.received(), inBuf)
 			}
 		}
-		if w.c.Timeout == "1ms" && w.c.OnTimeout {
+		if w.c.Timeout == "1ms" && w.c.OnTimeout && w.c.Subber == 0 {
 			// per event: deliveries + timeouts == subscribers it was aimed at
 			aimed := map[int]int{}
 			deliv := map[int]int{}
@@ -263,6 +300,20 @@ func inFlightStacks() string {
 	return b.String()
 }
 
+// drainInFlight waits until no send goroutine of any PubSub is left (used before closing ALL channels when
+// sends that the harness cannot account for by counting - optional deliveries to concurrently made
+// subscriptions - may still be on their way).
+func drainInFlight() (inconclusive string) {
+	dl := time.Now().Add(10 * time.Second)
+	for inFlight() > 0 {
+		if time.Now().After(dl) {
+			return "sends still in flight after 10s:\n" + inFlightStacks()
+		}
+		time.Sleep(100 * time.Microsecond)
+	}
+	return ""
+}
+
 func isSliceVariant(v string) bool { return strings.Contains(v, "Slice") }
 func isAsync(v string) bool        { return v == "Pub" || v == "PubSlice" }
 func isSyncV(v string) bool        { return strings.HasSuffix(v, "Sync") }
@@ -312,6 +363,69 @@ func Run(c Case) pbt.Outcome {
 		}
 	}()
 	fail := func(format string, a ...any) pbt.Outcome { return pbt.Fail(format, a...) }
+	// ---- background subscriber
+	var clock atomic.Int64
+	stamp := func() int64 { return clock.Add(1) }
+	type bgSub struct {
+		s         *subscriber
+		inv, resp int64
+		removedAt int64
+	}
+	type pubRec struct {
+		inv, resp int64
+		evs       []int
+	}
+	var bgMu sync.Mutex
+	var bg []*bgSub
+	var pubs []pubRec
+	bgDone := make(chan struct{})
+	if c.Subber > 0 {
+		go func() {
+			defer close(bgDone)
+			for i := 0; i < c.Subber; i++ {
+				for k := 0; k < 2+i*4; k++ {
+					runtime.Gosched()
+				}
+				inv := stamp()
+				ch := w.ps.Sub()
+				resp := stamp()
+				s := &subscriber{idx: 1000 + i, ch: ch, cap: c.DefaultBuffer, mode: "drain", gate: make(chan struct{}), live: true, expect: map[int]bool{}, optional: map[int]bool{}}
+				s.start()
+				bgMu.Lock()
+				bg = append(bg, &bgSub{s: s, inv: inv, resp: resp})
+				bgMu.Unlock()
+			}
+		}()
+		defer func() {
+			<-bgDone
+			for _, b := range bg {
+				b.s.start()
+			}
+		}()
+	} else {
+		close(bgDone)
+	}
+	// bgExpect fills in what the background subscriptions must / may have received so far
+	bgExpect := func() {
+		bgMu.Lock()
+		defer bgMu.Unlock()
+		for _, b := range bg {
+			for _, p := range pubs {
+				switch {
+				case b.removedAt != 0 && p.inv > b.removedAt:
+					// published after it was removed: must not arrive
+				case p.inv > b.resp:
+					for _, ev := range p.evs {
+						b.s.expect[ev] = true
+					}
+				case p.resp > b.inv:
+					for _, ev := range p.evs {
+						b.s.optional[ev] = true
+					}
+				}
+			}
+		}
+	}
 	variants := map[string]bool{}
 	unsubBetween := false
 	pubSeen := false
@@ -320,10 +434,17 @@ func Run(c Case) pbt.Outcome {
 		case "sub":
 			var ch <-chan int
 			cp := c.DefaultBuffer
+			cl := w.via(st.Via)
+			on := w.ps
+			if cl != nil {
+				on = cl.ps
+				cp = 0 // WithOnly does not copy DefaultBuffer
+				w.labels["sub-on-clone"] = true
+			}
 			if st.Buf < 0 {
-				ch = w.ps.Sub()
+				ch = on.Sub()
 			} else {
-				ch = w.ps.SubBuf(st.Buf)
+				ch = on.SubBuf(st.Buf)
 				cp = st.Buf
 			}
 			if ch == nil {
@@ -332,7 +453,10 @@ func Run(c Case) pbt.Outcome {
 			if cap(ch) != cp {
 				return fail("step %d: subscription channel has capacity %d, want %d", si, cap(ch), cp)
 			}
-			s := &subscriber{idx: len(w.subs), ch: ch, cap: cp, mode: st.Recv, gate: make(chan struct{}), live: true, expect: map[int]bool{}}
+			s := &subscriber{owner: cl, idx: len(w.subs), ch: ch, cap: cp, mode: st.Recv, gate: make(chan struct{}), live: true, expect: map[int]bool{}}
+			if cl != nil {
+				cl.own = append(cl.own, s)
+			}
 			for _, o := range w.subs {
 				if o.ch == ch {
 					return fail("step %d: Sub returned a channel that an earlier subscription already has", si)
@@ -342,6 +466,22 @@ func Run(c Case) pbt.Outcome {
 			if s.mode != "never" {
 				s.start()
 			}
+		case "clone":
+			cl := &clone{}
+			if st.Target >= 0 && len(w.subs) > 0 {
+				t := w.subs[st.Target%len(w.subs)]
+				cl.ps = w.ps.WithOnly(t.ch)
+				if t.live && t.owner == nil {
+					cl.member = t
+				}
+			} else {
+				cl.ps = w.ps.WithOnly(foreign)
+			}
+			if cl.ps == nil {
+				return fail("step %d: WithOnly returned nil", si)
+			}
+			w.clones = append(w.clones, cl)
+			w.labels["persistent-clone"] = true
 		case "pub":
 			n := st.N
 			if !isSliceVariant(st.Variant) {
@@ -355,7 +495,30 @@ func Run(c Case) pbt.Outcome {
 			// who is this aimed at?
 			targets := w.liveSubs()
 			ps := w.ps
-			if st.Only != 0 {
+			if cl := w.via(st.Via); cl != nil {
+				ps = cl.ps
+				targets = nil
+				if cl.member != nil {
+					if cl.member.live {
+						targets = append(targets, cl.member)
+					} else if !c.Racy {
+						// known finding 2: the clone still holds a channel that the PubSub has closed; publishing would
+						// send on a closed channel. Excluded by construction here (counted), exercised in C10.known.
+						w.excluded++
+						w.labels["excluded:clone-publish-after-unsub"] = true
+						continue
+					}
+				}
+				for _, o := range cl.own {
+					if o.live {
+						targets = append(targets, o)
+					}
+				}
+				w.labels["publish-via-persistent-clone"] = true
+				if cl.member != nil && cl.member.idx > 0 {
+					w.labels["clone-of-non-first-subscriber"] = true
+				}
+			} else if st.Only != 0 {
 				if st.Only == -2 || len(w.subs) == 0 {
 					ps = w.ps.WithOnly(foreign)
 					targets = nil
@@ -363,7 +526,7 @@ func Run(c Case) pbt.Outcome {
 				} else {
 					s := w.subs[(st.Only-1)%len(w.subs)]
 					ps = w.ps.WithOnly(s.ch)
-					if s.live {
+					if s.live && s.owner == nil {
 						targets = []*subscriber{s}
 					} else {
 						targets = nil
@@ -417,6 +580,8 @@ func Run(c Case) pbt.Outcome {
 				w.syncSeq = append(w.syncSeq, evs...)
 			}
 			variants[st.Variant] = true
+			toAll := st.Only == 0 && w.via(st.Via) == nil
+			pinv := stamp()
 			if pubSeen && unsubBetween {
 				w.labels["unsub-between-publishes"] = true
 			}
@@ -453,6 +618,11 @@ func Run(c Case) pbt.Outcome {
 				}
 				<-ret
 			}
+			if toAll {
+				bgMu.Lock()
+				pubs = append(pubs, pubRec{inv: pinv, resp: stamp(), evs: evs})
+				bgMu.Unlock()
+			}
 			// return-after-hand-off, exact form: a never/closed-gate receiver's buffer holds exactly what was aimed at it
 			if !isAsync(st.Variant) && c.Timeout != "1ms" {
 				for _, s := range targets {
@@ -470,9 +640,17 @@ func Run(c Case) pbt.Outcome {
 			var target *subscriber
 			if st.K == "unsuball" {
 				victims = w.liveSubs()
+				// background subscriptions are removed too: let the subscriber goroutine finish first, then treat them as victims
+				<-bgDone
+				bgExpect()
+				for _, b := range bg {
+					if b.removedAt == 0 {
+						victims = append(victims, b.s)
+					}
+				}
 			} else if st.Target >= 0 && len(w.subs) > 0 {
 				target = w.subs[st.Target%len(w.subs)]
-				if target.live {
+				if target.live && target.owner == nil {
 					victims = []*subscriber{target}
 				}
 			}
@@ -510,6 +688,11 @@ func Run(c Case) pbt.Outcome {
 					}
 				}
 			}
+			if st.K == "unsuball" && c.Subber > 0 && !c.Racy {
+				if inc := drainInFlight(); inc != "" {
+					return pbt.Outcome{Inconclusive: inc}
+				}
+			}
 			if st.K == "unsuball" {
 				if err := w.ps.UnsubAll(); err != nil {
 					return fail("step %d: UnsubAll returned %v", si, err)
@@ -530,7 +713,7 @@ func Run(c Case) pbt.Outcome {
 						return fail("step %d: Unsub(foreign channel) = %v, want ErrAlreadyUnsubscribed", si, err)
 					}
 					w.labels["unsub-foreign"] = true
-				case !target.live:
+				case !target.live || target.owner != nil:
 					err = w.ps.Unsub(target.ch)
 					if !errors.Is(err, chans.ErrAlreadyUnsubscribed) {
 						return fail("step %d: Unsub(already removed subscriber %d) = %v, want ErrAlreadyUnsubscribed", si, target.idx, err)
@@ -542,6 +725,14 @@ func Run(c Case) pbt.Outcome {
 						return fail("step %d: Unsub(subscriber %d) = %v, want nil", si, target.idx, err)
 					}
 					w.labels["unsub-known"] = true
+				}
+			}
+			if st.K == "unsuball" {
+				at := stamp()
+				for _, b := range bg {
+					if b.removedAt == 0 {
+						b.removedAt = at
+					}
 				}
 			}
 			for _, s := range victims {
@@ -559,7 +750,7 @@ func Run(c Case) pbt.Outcome {
 				}
 			}
 			// the others stay open
-			for _, s := range w.liveSubs() {
+			for _, s := range w.allLive() {
 				if s.closed.Load() {
 					return fail("step %d: %s closed subscriber %d's channel, which was not removed", si, st.K, s.idx)
 				}
@@ -567,6 +758,19 @@ func Run(c Case) pbt.Outcome {
 		}
 	}
 	// ---- end of script: everything still subscribed must be intact; release every receiver
+	<-bgDone
+	bgExpect()
+	for _, b := range bg {
+		w.subs = append(w.subs, b.s)
+	}
+	if len(bg) > 0 {
+		w.labels["background-subscriber"] = true
+		for _, b := range bg {
+			if len(b.s.optional) > 0 {
+				w.labels["publish-overlapped-a-concurrent-Sub"] = true
+			}
+		}
+	}
 	for _, s := range w.subs {
 		s.openGate()
 	}
@@ -576,7 +780,7 @@ func Run(c Case) pbt.Outcome {
 	} else if inc != "" {
 		return pbt.Outcome{Inconclusive: inc}
 	}
-	for _, s := range w.liveSubs() {
+	for _, s := range w.allLive() {
 		if s.mode == "never" {
 			// its buffer must hold exactly the expected events
 			if c.Timeout != "1ms" && len(s.ch) != len(s.expect) {
@@ -595,10 +799,27 @@ func Run(c Case) pbt.Outcome {
 			time.Sleep(200 * time.Microsecond)
 		}
 	}
+	if c.Subber > 0 {
+		if inc := drainInFlight(); inc != "" {
+			return pbt.Outcome{Inconclusive: inc}
+		}
+	}
 	if err := w.ps.UnsubAll(); err != nil {
 		return fail("final UnsubAll returned %v", err)
 	}
+	// subscriptions made on a clone are closed through the clone, one by one (never UnsubAll on a clone: that
+	// would close the shared member channel a second time)
+	for _, cl := range w.clones {
+		for _, o := range cl.own {
+			if o.live {
+				if err := cl.ps.Unsub(o.ch); err != nil {
+					return fail("Unsub of subscriber %d on the clone it was made on returned %v", o.idx, err)
+				}
+			}
+		}
+	}
 	for _, s := range w.subs {
+		s.live = false
 		s.start()
 		if closed, inc := s.sawClose(); inc {
 			return pbt.Outcome{Inconclusive: "receiver neither finished nor was seen waiting after the final UnsubAll"}
@@ -615,7 +836,7 @@ func Run(c Case) pbt.Outcome {
 			if cnt[v] > 1 {
 				return fail("subscriber %d received event %d twice: %v", s.idx, v, got)
 			}
-			if !s.expect[v] {
+			if !s.expect[v] && !s.optional[v] {
 				return fail("subscriber %d received event %d which was never published to it (published to it: %v; received: %v)", s.idx, v, keys(s.expect), got)
 			}
 		}
@@ -641,7 +862,7 @@ func Run(c Case) pbt.Outcome {
 			}
 		}
 	}
-	if c.Timeout == "1ms" && c.OnTimeout {
+	if c.Timeout == "1ms" && c.OnTimeout && c.Subber == 0 {
 		aimed, deliv := map[int]int{}, map[int]int{}
 		for _, s := range w.subs {
 			for ev := range s.expect {
@@ -694,7 +915,7 @@ func keys(m map[int]bool) []int {
 }
 
 func genStep(t *rapid.T) Step {
-	k := rapid.SampledFrom([]string{"pub", "pub", "pub", "pub", "sub", "sub", "unsub", "unsub", "unsuball"}).Draw(t, "k")
+	k := rapid.SampledFrom([]string{"pub", "pub", "pub", "pub", "pub", "sub", "sub", "unsub", "unsub", "unsuball", "clone"}).Draw(t, "k")
 	st := Step{K: k}
 	switch k {
 	case "pub":
@@ -705,10 +926,17 @@ func genStep(t *rapid.T) Step {
 			st.Only = rapid.IntRange(1, 6).Draw(t, "onlyidx")
 		case 1:
 			st.Only = -2
+		case 2, 3:
+			st.Via = rapid.IntRange(1, 3).Draw(t, "via")
 		}
 	case "sub":
 		st.Buf = rapid.SampledFrom([]int{-1, -1, 0, 1, 2, 5}).Draw(t, "buf")
 		st.Recv = rapid.SampledFrom([]string{"drain", "drain", "gated", "never"}).Draw(t, "recv")
+		if rapid.IntRange(0, 5).Draw(t, "onclone") == 0 {
+			st.Via = rapid.IntRange(1, 3).Draw(t, "via")
+		}
+	case "clone":
+		st.Target = rapid.SampledFrom([]int{0, 1, 1, 2, 3, -2}).Draw(t, "target")
 	case "unsub":
 		st.Target = rapid.SampledFrom([]int{0, 1, 2, 3, 4, -1, -2}).Draw(t, "target")
 	case "unsuball":
@@ -724,6 +952,7 @@ func genCase(t *rapid.T) Case {
 		DefaultBuffer: rapid.SampledFrom([]int{0, 0, 1, 3}).Draw(t, "defbuf"),
 		Timeout:       rapid.SampledFrom([]string{"0", "0", "1h", "1ms"}).Draw(t, "timeout"),
 		OnTimeout:     rapid.Bool().Draw(t, "ontimeout"),
+		Subber:        rapid.SampledFrom([]int{0, 0, 0, 1, 3}).Draw(t, "subber"),
 	}
 	// start with 1..3 subscribers so that most publishes have somebody to reach
 	pre := rapid.IntRange(0, 3).Draw(t, "presubs")
@@ -737,7 +966,7 @@ func genCase(t *rapid.T) Case {
 var specScript = pbt.Register(&pbt.Spec[Case]{
 	Property: "C10", Name: "C10.script",
 	Rule: "E5 scripts: PubSub config (DefaultBuffer 0/1/3, PubTimeoutAfter 0/1ms/1h, OnPubTimeout set or nil) x 0..3 initial + later subscribers {Sub|SubBuf(n); receiver drain|gated|never} x steps " +
-		"{Pub,PubSlice,PubWait,PubSliceWait,PubSync,PubSliceSync with globally unique event ids, optionally through WithOnly(subscriber|foreign); Unsub(known|already removed|foreign|nil); UnsubAll}. " +
+		"{Pub,PubSlice,PubWait,PubSliceWait,PubSync,PubSliceSync with globally unique event ids, optionally through a one-shot WithOnly(subscriber|foreign) or through a PERSISTENT WithOnly clone kept across later Sub/Unsub steps (incl. Sub on the clone); Unsub(known|already removed|foreign|nil); UnsubAll}. " +
 		"Oracle per channel from what its receiver saw until close: exactly-once for every event published while it was subscribed, no duplicates, nothing not published to it, Sync events in publication order; " +
 		"Wait/Sync calls return only after every hand-off (exact buffer length for receivers that do not receive; 'must not return' observed from goroutine state while the harness keeps a gate closed); " +
 		"1ms timeout: deliveries + OnPubTimeout calls == subscribers aimed at, per event; Unsub/UnsubAll close exactly the removed channels, right errors otherwise; WithOnly reaches only the given subscription; " +
